@@ -29,7 +29,7 @@ import (
 
 func init() {
 	register("C08",
-		"C08 (structural necessary conditions only; equality of the visible streams under every batching, arrival order and snapshot placement is NOT decided — it depends on timestamps and replay windows). C08-a (FLOW, two-phase, edge-pruned): in package builder an id copied from the next-id counter and handed unchanged to (*index.Writer).AddStream is followed by an increment of that counter on every path to the next read of the counter — otherwise two connections of one import get the same id. C08-b (typed AST): every assignment of a value derived from (*index.Reader).MaxStreamID() to a next-id variable (builder.FromPcap, manager.New) is a monotone update (guarded by a comparison of target and candidate, or max()) inside a range over the whole reader list whose body has no break/return/goto: ids of rewritten streams live on in newer files, so no single file knows the maximum. C08-c (FLOW): the first-packet lookup that recovers the id of an already known stream ranges over the whole list of existing readers and leaves the loop early only on the branch on which a stream was found. C08-d (sibling agreement): saveSnapshots and loadSnapshots agree on the sequence of records (nesting depth and type) they write and read, every field of snapshotHeader/snapshotEntryHeader set by the writer is read by the reader and vice versa, and every field of struct snapshot is read by the writer and assigned by the reader. C08-e: both packet lists that FromPcap merges are sorted through the comparator the merge step itself calls.",
+		"C08 (structural necessary conditions only; equality of the visible streams under every batching, arrival order and snapshot placement is NOT decided — it depends on timestamps and replay windows). C08-a (FLOW, two-phase, edge-pruned): in package builder an id copied from the next-id counter and handed unchanged to (*index.Writer).AddStream is followed by an increment of that counter on every path to the next read of the counter — otherwise two connections of one import get the same id. C08-b (typed AST): every assignment of a value derived from (*index.Reader).MaxStreamID() to a next-id variable (builder.FromPcap, manager.New) is a monotone update (guarded by a comparison of target and candidate, or max()) inside a range over the whole reader list whose body has no break/return/goto: ids of rewritten streams live on in newer files, so no single file knows the maximum. C08-c (FLOW): the first-packet lookup that recovers the id of an already known stream ranges over the whole list of existing readers and leaves the loop early only on the branch on which a stream was found, and a lookup that fails ends the import with an error (an index that cannot be read must not read as 'stream not known'). C08-d (sibling agreement): saveSnapshots and loadSnapshots agree on the sequence of records (nesting depth and type) they write and read, every field of snapshotHeader/snapshotEntryHeader set by the writer is read by the reader and vice versa, and every field of struct snapshot is read by the writer and assigned by the reader. C08-e: both packet lists that FromPcap merges are sorted through the comparator the merge step itself calls.",
 		ruleC08FreshID, ruleC08NextIDMax, ruleC08LookupTotal, ruleC08SnapshotFormat, ruleC08MergeOrder)
 }
 
@@ -440,7 +440,62 @@ func ruleC08LookupTotal(p *Prog, r *Res) {
 				}
 				return true
 			})
-			r.Check(bad == "", rule, key, p.Pos(c), "ranges over the whole list "+exprString(p.Fset, loop.X)+"; the loop is left early only where a stream was found", "the lookup can stop before every existing reader was asked ("+bad+"): a known stream is written with a second id")
+			// a lookup that fails is not a lookup that found nothing: the branch taken for a non-nil error ends the import
+			if bad == "" {
+				var errObj types.Object
+				for i := len(parents) - 1; i >= 0; i-- {
+					if as, ok := parents[i].(*ast.AssignStmt); ok && len(as.Rhs) == 1 && ast.Unparen(as.Rhs[0]) == ast.Expr(c) && len(as.Lhs) == 2 {
+						errObj = identObj(info, as.Lhs[1])
+						break
+					}
+				}
+				if errObj == nil {
+					bad = "the error result of the lookup is discarded: an unreadable index reads as 'stream not known'"
+				} else {
+					handled := false
+					errObjs := map[types.Object]bool{errObj: true}
+					for changed := true; changed; {
+						changed = false
+						ast.Inspect(loop.Body, func(y ast.Node) bool {
+							if as, ok := y.(*ast.AssignStmt); ok && len(as.Lhs) == len(as.Rhs) {
+								for i, l := range as.Lhs {
+									if o := identObj(info, l); o != nil && !errObjs[o] && errObjs[identObj(info, as.Rhs[i])] {
+										errObjs[o] = true
+										changed = true
+									}
+								}
+							}
+							return true
+						})
+					}
+					ast.Inspect(loop.Body, func(y ast.Node) bool {
+						ifs, ok := y.(*ast.IfStmt)
+						if !ok {
+							return true
+						}
+						for _, cj := range conjuncts(ifs.Cond) {
+							be, ok := ast.Unparen(cj).(*ast.BinaryExpr)
+							if !ok || be.Op != token.NEQ || !errObjs[identObj(info, be.X)] || exprString(p.Fset, be.Y) != "nil" {
+								continue
+							}
+							// the branch must end in a return that hands an error on
+							if len(ifs.Body.List) > 0 {
+								if ret, ok := ifs.Body.List[len(ifs.Body.List)-1].(*ast.ReturnStmt); ok && len(ret.Results) > 0 {
+									last := ast.Unparen(ret.Results[len(ret.Results)-1])
+									if id, ok := last.(*ast.Ident); !ok || id.Name != "nil" {
+										handled = true
+									}
+								}
+							}
+						}
+						return true
+					})
+					if !handled {
+						bad = "a failing lookup does not end the import with an error: an index that cannot be read is treated as 'stream not known'"
+					}
+				}
+			}
+			r.Check(bad == "", rule, key, p.Pos(c), "ranges over the whole list "+exprString(p.Fset, loop.X)+"; the loop is left early only where a stream was found; a failing lookup aborts", "the lookup can stop before every existing reader was asked ("+bad+"): a known stream is written with a second id")
 			return true
 		})
 	}
@@ -682,30 +737,23 @@ func ruleC08MergeOrder(p *Prog, r *Res) {
 		p.anchorFail("merge step cmp(&old[i], &new[j]) in builder.Builder.FromPcap")
 		return
 	}
-	// sorters: local closures that sort their parameter with a less function that calls cmp
-	sorterOf := map[types.Object]types.Object{} // sorter closure -> comparator it uses
-	inspectShallow(f.Body(), func(x ast.Node) bool {
-		as, ok := x.(*ast.AssignStmt)
-		if !ok || len(as.Lhs) != 1 || len(as.Rhs) != 1 {
-			return true
-		}
-		lit, ok := as.Rhs[0].(*ast.FuncLit)
-		if !ok || lit.Type.Params == nil || len(lit.Type.Params.List) != 1 {
-			return true
-		}
-		so := identObj(info, as.Lhs[0])
-		ast.Inspect(lit.Body, func(y ast.Node) bool {
+	// sorters: local closures or package functions that sort their parameter with a less function that calls cmp
+	sorterOf := map[types.Object]types.Object{} // sorter -> comparator it uses
+	usesCmpInSort := func(pk *Fn, body ast.Node) types.Object {
+		var hit types.Object
+		binfo := pk.Pkg.TypesInfo
+		ast.Inspect(body, func(y ast.Node) bool {
 			c, ok := y.(*ast.CallExpr)
 			if !ok {
 				return true
 			}
-			if fn := p.Callee(f.Pkg, c); fn != nil && (fn.FullName() == "sort.Slice" || fn.FullName() == "sort.SliceStable" || fn.FullName() == "slices.SortFunc" || fn.FullName() == "slices.SortStableFunc") {
+			if fn := p.Callee(pk.Pkg, c); fn != nil && (fn.FullName() == "sort.Slice" || fn.FullName() == "sort.SliceStable" || fn.FullName() == "slices.SortFunc" || fn.FullName() == "slices.SortStableFunc") {
 				ast.Inspect(c, func(z ast.Node) bool {
 					if cc, ok := z.(*ast.CallExpr); ok {
-						if o := identObj(info, cc.Fun); o != nil {
+						if o := identObj(binfo, cc.Fun); o != nil {
 							for _, m := range merges {
 								if o == m.cmp {
-									sorterOf[so] = o
+									hit = o
 								}
 							}
 						}
@@ -715,6 +763,27 @@ func ruleC08MergeOrder(p *Prog, r *Res) {
 			}
 			return true
 		})
+		return hit
+	}
+	inspectShallow(f.Body(), func(x ast.Node) bool {
+		switch s := x.(type) {
+		case *ast.AssignStmt:
+			if len(s.Lhs) == 1 && len(s.Rhs) == 1 {
+				if lit, ok := s.Rhs[0].(*ast.FuncLit); ok && lit.Type.Params != nil && len(lit.Type.Params.List) == 1 {
+					if o := usesCmpInSort(f, lit.Body); o != nil {
+						sorterOf[identObj(info, s.Lhs[0])] = o
+					}
+				}
+			}
+		case *ast.CallExpr:
+			if fn := p.Callee(f.Pkg, s); fn != nil {
+				if h := p.FnOfObj(fn); h != nil && h.Lit == nil && h.Body() != nil && h.Pkg == f.Pkg && len(s.Args) == 1 {
+					if o := usesCmpInSort(h, h.Body()); o != nil {
+						sorterOf[types.Object(fn)] = o
+					}
+				}
+			}
+		}
 		return true
 	})
 	fl := p.Flow(f)
@@ -725,10 +794,13 @@ func ruleC08MergeOrder(p *Prog, r *Res) {
 			// it through a sorter that uses the merge's comparator before the merge step is reached
 			isSort := func(nd ast.Node) bool {
 				return fl.hasCall(nd, func(c *ast.CallExpr) bool {
-					if o := identObj(info, c.Fun); o != nil && sorterOf[o] == m.cmp && len(c.Args) == 1 && identObj(info, c.Args[0]) == lst {
-						return true
+					o := identObj(info, c.Fun)
+					if o == nil {
+						if fn := p.Callee(f.Pkg, c); fn != nil {
+							o = fn
+						}
 					}
-					return false
+					return o != nil && sorterOf[o] == m.cmp && len(c.Args) == 1 && identObj(info, c.Args[0]) == lst
 				})
 			}
 			var grows []Pt
